@@ -172,7 +172,7 @@ def make_monitor(prefixes):
 
 
 def hdr_spec(prop, title, prefixes, profiles, rule, props_file, quick_n=160, thorough_n=4000, extra=None,
-             assumptions=(), partial_note="", static=None):
+             assumptions=(), partial_note="", static=None, more_props=()):
     def static_checks(facts):
         res = lock_static(facts)
         if static:
@@ -180,8 +180,8 @@ def hdr_spec(prop, title, prefixes, profiles, rule, props_file, quick_n=160, tho
         return res
     return Spec(
         prop=prop, title=title, go_bins=["hdr"],
-        lean_targets=[f"BRV.Props.{prop}", "drv_hdr"],
-        props_files=[brv.LEAN / f"BRV/Props/{prop}.lean"],
+        lean_targets=[f"BRV.Props.{prop}"] + [f"BRV.Props.{m}" for m in more_props] + ["drv_hdr"],
+        props_files=[brv.LEAN / f"BRV/Props/{prop}.lean"] + [brv.LEAN / f"BRV/Props/{m}.lean" for m in more_props],
         streams=[Stream("hdr", "hdr", "drv_hdr", make_gen(profiles, quick_n, thorough_n, extra),
                         monitor=make_monitor(prefixes), nontrivial=mon.nontrivial, timeout=1500)],
         rule=rule, assumptions=list(COMMON_ASSUMPTIONS) + list(assumptions),
